@@ -236,6 +236,13 @@ def cmp_lh_rat(ctx, kind, mo, im):
     a, b = kvs(mo), kvs(im)
     for k in ("conv", "iter", "init", "b0", "b1"):
         if a[k] != b[k]:
+            if a.get("ties", "0") != "0":
+                # The exact run met a ratio tie (resolved lexicographically).  In doubles the tied ratios
+                # differ by rounding noise above tol_ratio_diff=1e-15, so the code may legitimately follow the
+                # other branch of the path; both end points are judged by the exact Nash oracle.  Counted,
+                # not alarmed (same policy as C11).  [false alarm, seed 9: dyadic 2x3 game, x = 4e-15 vs 0]
+                ctx.count("lh:rat-run-with-exact-tie-diverged-from-code")
+                return None
             return "%s differs (model %s, code %s)" % (k, a[k], b[k])
     for k in ("x", "y"):
         va, vb = parse_rats(a[k]), parse_rats(b[k])
